@@ -195,8 +195,14 @@ Proof. destruct p; try congruence; reflexivity. Qed.
 Lemma bmin_unb p : p <> Unbounded -> bmin (Upper Unbounded) (Upper p) = Upper p.
 Proof. destruct p; try congruence; reflexivity. Qed.
 
-Lemma range_p_no_hyphen s : space0 s = s -> hyphen_p s = None -> range_p s = simples_p s.
-Proof. intros H0 H. unfold range_p. now rewrite H0, H. Qed.
+Lemma range_p_no_hyphen s : space0 s = s -> at_empty_alt s = false -> hyphen_p s = None -> range_p s = simples_p s.
+Proof. intros H0 He H. unfold range_p. now rewrite H0, He, H. Qed.
+Lemma lit_bars_digit c t : is_digit c = true -> lit [124; 124] (c :: t) = None.
+Proof. intro Hc. cbn [lit]. destruct (N.eqb_spec c 124) as [->|Hn]; [discriminate Hc|]. unfold lit1. destruct (N.eqb_spec 124 c) as [E|_]; [congruence|reflexivity]. Qed.
+Lemma at_empty_alt_op_text op t : op <> OpExact -> at_empty_alt (op_text op ++ t) = false.
+Proof. intro Hop. destruct op; cbn [op_text app]; try congruence; reflexivity. Qed.
+Lemma at_empty_alt_vprint w r : at_empty_alt (vprint w ++ r) = false.
+Proof. destruct (vprint_head w) as (c & t & -> & Hc). cbn [app]. unfold at_empty_alt. now rewrite lit_bars_digit. Qed.
 Lemma space0_op_text op t : op <> OpExact -> space0 (op_text op ++ t) = op_text op ++ t.
 Proof. intro Hop. destruct op; cbn [op_text app]; try congruence; reflexivity. Qed.
 Lemma space0_vprint w r : space0 (vprint w ++ r) = vprint w ++ r.
@@ -206,7 +212,7 @@ Proof. intro Hop. destruct op; cbn [op_text app]; try congruence; apply hyphen_p
 Lemma one_token op w r : op <> OpExact -> canonical_version w -> alt_end r ->
   range_p (op_text op ++ vprint w ++ r) = Some (and_fold (flatten_opts [primitive_tbl op (full_partial w)]), r).
 Proof.
-  intros Hop Cw Hr. rewrite range_p_no_hyphen; [|now apply space0_op_text|now apply hyphen_p_op_text]. unfold simples_p. rewrite (simple_primitive op w r Hop Cw (alt_end_term r Hr)).
+  intros Hop Cw Hr. rewrite range_p_no_hyphen; [|now apply space0_op_text|now apply at_empty_alt_op_text|now apply hyphen_p_op_text]. unfold simples_p. rewrite (simple_primitive op w r Hop Cw (alt_end_term r Hr)).
   now rewrite (simples_tail_stop _ r Hr).
 Qed.
 Lemma two_tokens op1 w1 op2 w2 r : op1 <> OpExact -> op2 <> OpExact -> (op2 = OpLT \/ op2 = OpLTE) ->
@@ -214,7 +220,7 @@ Lemma two_tokens op1 w1 op2 w2 r : op1 <> OpExact -> op2 <> OpExact -> (op2 = Op
   range_p (op_text op1 ++ vprint w1 ++ 32 :: op_text op2 ++ vprint w2 ++ r) =
   Some (and_fold (flatten_opts [primitive_tbl op1 (full_partial w1); primitive_tbl op2 (full_partial w2)]), r).
 Proof.
-  intros H1 H2 H2' C1 C2 Hr. rewrite range_p_no_hyphen; [|now apply space0_op_text|now apply hyphen_p_op_text]. unfold simples_p.
+  intros H1 H2 H2' C1 C2 Hr. rewrite range_p_no_hyphen; [|now apply space0_op_text|now apply at_empty_alt_op_text|now apply hyphen_p_op_text]. unfold simples_p.
   rewrite (simple_primitive op1 w1 (32 :: op_text op2 ++ vprint w2 ++ r) H1 C1) by reflexivity.
   cbn [length]. cbn [simples_tail space1 is_space N.eqb Pos.eqb orb].
   assert (Es : space0 (op_text op2 ++ vprint w2 ++ r) = op_text op2 ++ vprint w2 ++ r) by (destruct H2' as [-> | ->]; reflexivity).
@@ -262,7 +268,7 @@ Proof.
     + injection Hp as <-. exists (mkBS (Upper (Including vl)) (Lower (Including vl))).
       split; [|split; [unfold bs_eqb, bound_eqb, pred_eqb; cbn [bs_upper bs_lower]; now rewrite Refl, Ev
                       | unfold bs_print; cbn [bs_upper bs_lower]; now rewrite Refl]].
-      rewrite range_p_no_hyphen; [|apply space0_vprint|apply hyphen_p_version; [exact Cl|exact (alt_end_term r Hr)|exact (alt_end_bar r Hr)]].
+      rewrite range_p_no_hyphen; [|apply space0_vprint|apply at_empty_alt_vprint|apply hyphen_p_version; [exact Cl|exact (alt_end_term r Hr)|exact (alt_end_bar r Hr)]].
       unfold simples_p. rewrite (simple_bare vl r Cl (alt_end_term r Hr) (alt_end_bar r Hr)).
       rewrite (simples_tail_stop _ r Hr). unfold exact, bs_new. now rewrite Refl.
     + injection Hp as <-. exists (mkBS (Upper (Including vu)) (Lower (Including vl))). split; [|split; [apply bs_eqb_refl|try reflexivity; unfold bs_print; cbn [bs_upper bs_lower]; now rewrite Ev]].
